@@ -81,7 +81,7 @@ func c40(r *Rec) eng.Res {
 	case "rename", "move":
 		alts, _ = expectMove(r, g0, pre)
 	case "reconnect":
-		alts = []*expectation{newExpectation(pre)}
+		alts = []*expectation{newExpectation(r, pre)}
 	}
 	for _, x := range alts {
 		if x.match(post) != nil {
